@@ -142,8 +142,18 @@ pub fn end_run(free_quarantine: bool) -> EndReport {
         (errors, l.into_iter().map(|(_, s, a)| (s, a)).collect(), q)
     })
     .unwrap_or_default();
+    let mut errors = errors;
     if free_quarantine {
         for (a, (size, align)) in q {
+            // a released block is poisoned with 0xA5 and kept until now: any other byte in it was
+            // written through a dangling pointer
+            let bytes = unsafe { std::slice::from_raw_parts(a as *const u8, size) };
+            if let Some(off) = bytes.iter().position(|&b| b != 0xA5) {
+                errors.push(format!(
+                    "write-after-free: a released block of size={} was written at offset {}",
+                    size, off
+                ));
+            }
             unsafe { System.dealloc(a as *mut u8, Layout::from_size_align(size, align).unwrap()) };
         }
     }
